@@ -613,7 +613,7 @@ func c15BitFlips(c *Ctx, work string) {
 		return
 	}
 	want := mustJSON(scan.assets)
-	for i := 0; i < c.N(40, 400); i++ {
+	for i := 0; i < c.N(400, 3000); i++ {
 		f := files[r.Intn(len(files))]
 		orig, err := os.ReadFile(f)
 		if err != nil || len(orig) == 0 {
